@@ -55,6 +55,7 @@ Print Assumptions C14_parse_result.
 (* the earlier partial statement, now a corollary *)
 Corollary C14_parse_terminates_partial : forall s, wf_schema s = true -> parse (print s) <> SFuel.
 Proof. intros s _. apply parse_terminates. Qed.
+Print Assumptions C14_parse_terminates_partial.
 
 (* the hypothesis is satisfiable by a schema using every feature of the subset *)
 Example C14_parse_print_example :
@@ -71,6 +72,7 @@ Example C14_parse_print_example :
      mkdef (lit "upload.getFileHashes") 3338819889 [] (lit "FileHash") true] in
   wf_schema s = true /\ parse (print s) = SOk s.
 Proof. split; vm_compute; reflexivity. Qed.
+Print Assumptions C14_parse_print_example.
 
 (* the generated declarations do not depend on Go's map iteration order *)
 Theorem C14_deterministic :
@@ -102,6 +104,7 @@ Proof.
   - apply isort_by_perm.
   - apply (isort_by_sorted (fun s => s)).
 Qed.
+Print Assumptions C14_sorts_exist.
 
 (* the generated package declares the constructors of the schema with the schema's ids, field layouts
    and flag positions - and nothing else.  [describes tid d sd]: the struct descriptor [sd] has the id of
@@ -173,6 +176,7 @@ Example C14_declared_once_example :
   let goify := fun (n : str) (_ : bool) => match n with c :: t => (if andb (97 <=? c) (c <=? 122) then c - 32 else c) :: t | [] => [] end in
   names_ok goify s = true /\ is_ok (emit goify isort_defs isort_strs (groups (s_objects s)) (s_methods s)) = true.
 Proof. split; vm_compute; reflexivity. Qed.
+Print Assumptions C14_declared_once_example.
 
 (* the body of a generated method: the j-th positional argument is the j-th parameter of the function other
    than the flags word, and the literal &<Name>Params{...} handed to MakeRequest puts it into the field
@@ -201,6 +205,7 @@ Proof.
   split; [vm_compute; repeat constructor|]. split; [|vm_compute; reflexivity].
   vm_compute. repeat constructor; cbn; intuition discriminate.
 Qed.
+Print Assumptions C14_argument_map_example.
 
 (* the hypothesis "emit ... = Ok out" is satisfiable (a schema with an enum, a stand-alone struct with
    a flags word that is not the first parameter, an interface with a name clash, and two functions) *)
@@ -223,3 +228,4 @@ Example C14_layout_example :
   is_ok (emit goify isort_defs isort_strs (groups (s_objects s)) (s_methods s)) = true
   /\ is_ok (emit goify isort_defs isort_strs (rev (groups (s_objects s))) (s_methods s)) = true.
 Proof. split; vm_compute; reflexivity. Qed.
+Print Assumptions C14_layout_example.
